@@ -25,11 +25,11 @@ var diagRE = regexp.MustCompile(`^An unexpected token was received by the parser
 var controlNames = map[string]string{"<NULL>": "\x00", "<BELL>": "\a", "<BKSP>": "\b", "<HTAB>": "\t", "<FMFD>": "\f", "<EOLN>": "\n", "<CRTN>": "\r", "<VTAB>": "\v"}
 
 type parseOutcome struct {
-	Kind     string // value | diagnostic | violation
-	TokType  string
-	Line     int
-	Pos      int
-	TokText  string
+	Kind      string // value | diagnostic | violation
+	TokType   string
+	Line      int
+	Pos       int
+	TokText   string
 	Violation *core.Violation
 }
 
